@@ -104,34 +104,52 @@ Definition default_vinfo (t : TensorP) : VInfoP :=
 
 Definition keyed_vinfo (l : list VInfoP) : list (str * VInfoP) := map (fun vi => (vname vi, vi)) l.
 
-Definition norm_vinfos (io referenced : list str) (inits : list TensorP) (l : list VInfoP) : list VInfoP :=
-  let l' := map norm_vinfo l in
-  let kept := filter (fun vi => in_str (vname vi) referenced && negb (in_str (vname vi) io) && has_info vi) l' in
-  let added := map default_vinfo
-                   (filter (fun t => nonempty (tname t) && negb (in_str (tname t) io)
-                                     && negb (in_str (tname t) (map vname (filter has_info l')))) inits) in
-  map snd (ksort (keyed_vinfo (kept ++ added))).
+(* Canonical form of the value-info list: entries are keyed by name, so the list is rebuilt in an
+   order fixed by the graph itself (initializers, then node outputs; the same in p and q) instead of
+   being sorted.  For every name in `order`: all informative entries with that name (duplicates stay
+   visible); when there is none and the name is an initializer, the entry the serializer adds for it. *)
+Definition norm_vinfos (order : list str) (inits : list TensorP) (l : list VInfoP) : list VInfoP :=
+  let inf := filter has_info (map norm_vinfo l) in
+  concat (map (fun k => match filter (fun vi => str_eqb (vname vi) k) inf with
+                        | [] => match lookup k (map (fun t => (tname t, t)) inits) with
+                                | Some t => [default_vinfo t]
+                                | None => []
+                                end
+                        | es => es
+                        end) order).
+
+Definition norm_quants (order : list str) (l : list QuantP) : list QuantP :=
+  let d := map (fun q => mkQuantP (Some (dflt [] (qa_name q))) (ksort (qa_params q))) l in
+  concat (map (fun k => filter (fun q => str_eqb (dflt [] (qa_name q)) k) d) order).
+
+Definition minus (a b : list str) : list str := filter (fun x => negb (in_str x b)) a.
+
+Definition vinfo_order (g_ins g_outs inits nouts : list str) : list str :=
+  minus (filter nonempty inits ++ nouts) (g_ins ++ g_outs).
+Definition quant_order (ins outs inits nouts : list str) : list str :=
+  dedup_str [] (minus ins inits ++ inits ++ minus nouts outs ++ outs).
 
 Fixpoint norm_graph (g : GraphP) : GraphP :=
-  let io := map vname (g_inputs g) ++ map vname (g_outputs g) in
-  let referenced := node_out_names (g_nodes g) ++ map tname (g_inits g) in
+  let ins := map vname (g_inputs g) in
+  let outs := map vname (g_outputs g) in
+  let inits := map tname (g_inits g) in
+  let nouts := node_out_names (g_nodes g) in
   mkGraphP (truthy (g_name g)) (truthy (g_doc g))
            (map norm_vinfo (g_inputs g)) (map norm_tensor (g_inits g))
            (map (norm_node norm_graph empty_graph) (g_nodes g))
            (map norm_vinfo (g_outputs g))
-           (norm_vinfos io referenced (g_inits g) (g_vinfo g))
-           (map (fun kq => mkQuantP (truthy_s (fst kq)) (snd kq))
-                (ksort (map (fun q => (dflt [] (qa_name q), ksort (qa_params q))) (g_quant g))))
+           (norm_vinfos (vinfo_order ins outs inits nouts) (g_inits g) (g_vinfo g))
+           (norm_quants (quant_order ins outs inits nouts) (g_quant g))
            (ksort (g_meta g)).
 
 Definition norm_function (f : FunctionP) : FunctionP :=
-  let referenced := node_out_names (f_nodes f) ++ f_inputs f in
+  let order := f_inputs f ++ node_out_names (f_nodes f) in
   mkFunctionP (truthy (f_name f)) (truthy (f_domain f)) (truthy (f_overload f)) (truthy (f_doc f))
               (f_inputs f) (f_outputs f) (f_attr f)
               (map (norm_attr norm_graph empty_graph) (f_attr_protos f))
               (map (norm_node norm_graph empty_graph) (f_nodes f))
               (ksort (f_opsets f))
-              (norm_vinfos [] referenced [] (f_vinfo f))
+              (norm_vinfos order [] (f_vinfo f))
               (ksort (f_meta f)).
 
 Definition norm_model (m : ModelP) : ModelP :=
@@ -314,7 +332,7 @@ Definition declared (g : GraphP) : list str :=
 
 (* allow_dev: device configurations may appear on this graph's own nodes (model IR version >= 11);
    nested graphs are serialized without a version and always keep them *)
-Fixpoint wf_graph (allow_dev rg : bool) (visible : list str) (g : GraphP) : bool :=
+Fixpoint wf_graph (fixB allow_dev rg : bool) (visible : list str) (g : GraphP) : bool :=
   let ins := map vname (g_inputs g) in
   let inits := map tname (g_inits g) in
   let nouts := node_out_names (g_nodes g) in
@@ -334,41 +352,41 @@ Fixpoint wf_graph (allow_dev rg : bool) (visible : list str) (g : GraphP) : bool
   && nodup_str qs && forallb (fun q => wf_dict (qa_params q) && nonempty (qa_params q)) (g_quant g)
   && forallb (fun q => in_str q decl) qs
   (* known finding C02-quant-dup: an annotation on a value that is both input/initializer and output *)
-  && forallb (fun q => negb (in_str q outs && in_str q (ins ++ inits))) qs
+  && forallb (fun q => fixB || negb (in_str q outs && in_str q (ins ++ inits))) qs
   && wf_dict (g_meta g)
-  && forallb (wf_node allow_dev rg (wf_graph true rg) (visible ++ decl)) (g_nodes g).
+  && forallb (wf_node allow_dev rg (wf_graph fixB true rg) (visible ++ decl)) (g_nodes g).
 
-Definition wf_function (allow_dev rg : bool) (allow_vinfo : bool) (f : FunctionP) : bool :=
+Definition wf_function (fixA fixB allow_dev rg : bool) (allow_vinfo : bool) (f : FunctionP) : bool :=
   let nouts := node_out_names (f_nodes f) in
   let decl := f_inputs f ++ nouts in
   let vis := map vname (f_vinfo f) in
   nodup_str (f_inputs f) && forallb nonempty (f_inputs f) && nodup_str nouts && disjoint nouts (f_inputs f)
   && forallb (fun o => in_str o decl) (f_outputs f)
   && nodup_str (f_attr f ++ map (fun a => dflt [] (a_name a)) (f_attr_protos f))
-  && forallb (wf_attr false rg (wf_graph true rg [])) (f_attr_protos f)
+  && forallb (wf_attr false rg (wf_graph fixB true rg [])) (f_attr_protos f)
   && (allow_vinfo || negb (nonempty (f_vinfo f)))
   && nodup_str vis && forallb nonempty vis && forallb wf_vinfo (f_vinfo f)
   (* known finding C02-function-input-value-info: value-info naming a function input *)
-  && disjoint vis (f_inputs f)
+  && (fixA || disjoint vis (f_inputs f))
   && wf_dict (f_opsets f) && wf_dict (f_meta f)
-  && forallb (wf_node allow_dev rg (wf_graph true rg) decl) (f_nodes f).
+  && forallb (wf_node allow_dev rg (wf_graph fixB true rg) decl) (f_nodes f).
 
 Definition fident (f : FunctionP) : str * str * str :=
   (dflt [] (f_domain f), dflt [] (f_name f), dflt [] (f_overload f)).
 Fixpoint nodup_fid (l : list (str * str * str)) : bool :=
   match l with [] => true | x :: r => negb (existsb (fkey_eqb x) r) && nodup_fid r end.
 
-Definition wf_model (m : ModelP) : bool :=
+Definition wf_model (fixA fixB fixD : bool) (m : ModelP) : bool :=
   let irv := dflt 0 (m_irv m) in
   let dev := MULTI_DEVICE_SUPPORTED_VERSION <=? irv in
   let fvi := FUNCTION_VALUE_INFO_SUPPORTED_VERSION <=? irv in
-  let rg := negb (nonempty (m_conf m)) in
+  let rg := fixD || negb (nonempty (m_conf m)) in
   (3 <=? irv) && (irv <=? 13)
   && wf_dict (m_opsets m) && wf_dict (m_meta m)
   && (dev || negb (nonempty (m_conf m)))
-  && wf_graph dev rg [] (m_graph m)
+  && wf_graph fixB dev rg [] (m_graph m)
   && nodup_fid (map fident (m_funcs m))
-  && forallb (wf_function dev rg fvi) (m_funcs m)
+  && forallb (wf_function fixA fixB dev rg fvi) (m_funcs m)
   && (fvi || negb (nonempty (m_funcs m))
       || negb (existsb (fun vi => has_slash (vname vi)) (g_vinfo (m_graph m)))).
 
